@@ -44,6 +44,9 @@ enum Op {
     RemoveClaim { i: usize, t: u32 },
     /// environment: issuer i confirms (true) / rejects (false) claims for topic t from now on
     Answer { i: usize, t: u32, confirm: bool },
+    /// probe on a rebuilt copy: 600000 ledgers pass without a call; the verdict and the claim index
+    /// must be the same
+    IdleProbe,
 }
 
 #[derive(Clone, Debug, PartialEq, Eq, Hash)]
@@ -94,9 +97,13 @@ impl Ver {
                 (i.identity.clone(), "remove_claim", (BytesN::<32>::try_from_val(e, &id).unwrap(),).into_val(e))
             }
             Op::Answer { i: k, t, confirm } => (i.issuers[*k].clone(), "set_answer", (*t, if *confirm { 0u32 } else { 1u32 }).into_val(e)),
+            Op::IdleProbe => unreachable!(),
         }
     }
     fn exec(&self, i: &Inst, op: &Op) -> bool {
+        if matches!(op, Op::IdleProbe) {
+            return false;
+        }
         let (c, f, a) = self.call(i, op);
         call_mocked(&i.e, &c, f, a).is_ok()
     }
@@ -215,6 +222,7 @@ impl World for Ver {
                 v.push(Op::Answer { i, t, confirm: !m.confirm[i][(t - 1) as usize] });
             }
         }
+        v.push(Op::IdleProbe);
         v
     }
 
@@ -228,6 +236,7 @@ impl World for Ver {
             Op::AddClaim { .. } => "add_claim",
             Op::RemoveClaim { .. } => "remove_claim",
             Op::Answer { .. } => "issuer-answer-flip",
+            Op::IdleProbe => "idle-probe",
         }
         .into()
     }
@@ -236,6 +245,13 @@ impl World for Ver {
     }
 
     fn step(&self, i: &mut Inst, m: &mut Model, op: &Op, cx: &mut StepCtx<Self>) -> Result<bool, Violation> {
+        if matches!(op, Op::IdleProbe) {
+            let copy = cx.rebuild();
+            envx::advance(&copy.e, 600_000);
+            self.check_verify(&copy, m, "600000 idle ledgers").map_err(|v| Violation::new("state-survives-idle", format!("[{}] {}", v.oracle, v.detail)))?;
+            cx.stats.count("idle-probes", 1);
+            return Ok(false);
+        }
         let ok = self.exec(i, op);
         match op {
             Op::AddClaim { i: k, t, .. } => {
@@ -623,6 +639,9 @@ enum KOp {
     Remove { k: usize, r: usize, t: u32 },
     Bump { t: u32 },
     Revoke { k: usize, t: u32, on: bool },
+    /// probe on a rebuilt copy: 600000 ledgers pass without a call; key authorizations and nonces
+    /// must be the same (judged with claims whose validity period covers the idle time)
+    IdleProbe,
 }
 
 #[derive(Clone, Debug, PartialEq, Eq, Hash)]
@@ -660,11 +679,21 @@ impl Keys {
             KOp::Remove { k, r, t } => call_mocked(e, &i.issuer, "remove_key", (b(&Self::pk(*k)), i.regs[*r].clone(), wrap::ED25519, *t).into_val(e)).is_ok(),
             KOp::Bump { t } => call_mocked(e, &i.issuer, "bump_nonce", (i.identity.clone(), *t).into_val(e)).is_ok(),
             KOp::Revoke { k, t, on } => call_mocked(e, &i.issuer, "revoke", (i.identity.clone(), *t, b(&Self::data(*k, *t)), *on).into_val(e)).is_ok(),
+            KOp::IdleProbe => false,
         }
     }
     fn confirms(&self, i: &KInst, k: usize, t: u32, nonce: u32) -> bool {
+        self.confirms_data(i, k, t, nonce, Self::data(k, t))
+    }
+    /// a claim of the same issuer whose validity period reaches far beyond the idle time
+    fn long_lived(k: usize, t: u32) -> Vec<u8> {
+        let mut d = (T0 - 10).to_be_bytes().to_vec();
+        d.extend((T0 + 1_000_000_000).to_be_bytes());
+        d.extend(format!("long-lived-claim-by-key-{k}-for-topic-{t}").as_bytes());
+        d
+    }
+    fn confirms_data(&self, i: &KInst, k: usize, t: u32, nonce: u32, data: Vec<u8>) -> bool {
         let e = &i.e;
-        let data = Self::data(k, t);
         let sig = Scheme::Ed25519.sign(KEY_SEEDS[k], &message([7u8; 32], &i.issuer, &i.identity, t, nonce, &data)).1;
         view(e, &i.issuer, "is_claim_valid", (i.identity.clone(), t, wrap::ED25519, Bytes::from_slice(e, &sig), Bytes::from_slice(e, &data)).into_val(e)).is_ok()
     }
@@ -715,6 +744,7 @@ impl World for Keys {
         } else {
             v.push(KOp::Revoke { k: 0, t: 1, on: !m.revoked[0][0] });
         }
+        v.push(KOp::IdleProbe);
         v
     }
     fn kind(&self, op: &KOp) -> String {
@@ -723,6 +753,7 @@ impl World for Keys {
             KOp::Remove { .. } => "remove_key",
             KOp::Bump { .. } => "invalidate_claim_signatures",
             KOp::Revoke { .. } => "set_claim_revoked",
+            KOp::IdleProbe => "idle-probe",
         }
         .into()
     }
@@ -730,6 +761,32 @@ impl World for Keys {
         self.exec(i, op);
     }
     fn step(&self, i: &mut KInst, m: &mut KModel, op: &KOp, cx: &mut StepCtx<Self>) -> Result<bool, Violation> {
+        if matches!(op, KOp::IdleProbe) {
+            let copy = cx.rebuild();
+            envx::advance(&copy.e, 600_000);
+            for k in 0..2 {
+                for t in TOPICS {
+                    let ti = (t - 1) as usize;
+                    let allowed = (0..2).any(|r| m.allowed[k][r][ti]);
+                    let got = self.confirms_data(&copy, k, t, m.nonce[ti], Self::long_lived(k, t));
+                    ensure!(
+                        got == allowed,
+                        "state-survives-idle",
+                        "after 600000 idle ledgers a genuine long-lived claim for topic {t} signed by K{} (nonce {}) is {} although the key is {} for the topic (authorizations {:?})",
+                        k + 1,
+                        m.nonce[ti],
+                        if got { "confirmed" } else { "rejected" },
+                        if allowed { "allowed" } else { "not allowed" },
+                        m.allowed[k]
+                    );
+                    if m.nonce[ti] > 0 {
+                        ensure!(!self.confirms_data(&copy, k, t, m.nonce[ti] - 1, Self::long_lived(k, t)), "state-survives-idle", "after 600000 idle ledgers a claim over the superseded nonce {} is confirmed again", m.nonce[ti] - 1);
+                    }
+                }
+            }
+            cx.stats.count("idle-probes", 1);
+            return Ok(false);
+        }
         if !self.exec(i, op) {
             return Ok(false);
         }
@@ -738,6 +795,7 @@ impl World for Keys {
             KOp::Remove { k, r, t } => m.allowed[*k][*r][(*t - 1) as usize] = false,
             KOp::Bump { t } => m.nonce[(*t - 1) as usize] += 1,
             KOp::Revoke { k, t, on } => m.revoked[*k][(*t - 1) as usize] = *on,
+            KOp::IdleProbe => unreachable!(),
         }
         for k in 0..2 {
             for t in TOPICS {
@@ -906,7 +964,7 @@ fn main() {
                     &["add_claim_topic", "remove_claim_topic", "add_trusted_issuer", "remove_trusted_issuer", "update_issuer_claim_topics", "add_claim", "remove_claim", "issuer-answer-flip", "allow_key", "remove_key", "invalidate_claim_signatures", "set_claim_revoked"],
                     &["add_claim_topic", "remove_claim_topic", "add_trusted_issuer", "remove_trusted_issuer", "add_claim", "remove_claim", "allow_key", "remove_key"],
                 );
-                rep.require_counter(&["verify-expected-ok", "verify-expected-fail", "issuer-expected-to-confirm", "issuer-expected-to-reject"]);
+                rep.require_counter(&["verify-expected-ok", "verify-expected-fail", "issuer-expected-to-confirm", "issuer-expected-to-reject", "idle-probes"]);
             }
         },
     );
